@@ -135,6 +135,17 @@ def run(ctx):
         k = rng.randrange(1, 4)
         parts = rng.sample(texts, k)
         cases.append(('file', '\n\n'.join(parts) + rng.choice(['', '\n'])))
+    # files whose members share an `# id` annotation, or repeat a member verbatim (a specification is a sequence, ids are not keys)
+    plain = [t for t in texts if '# id' not in t]
+    for i in range(n // 8):
+        k = rng.randrange(2, 4)
+        parts = rng.sample(plain, min(k, len(plain))) if plain else []
+        if parts:
+            if rng.random() < 0.7:
+                parts = ['# id: shared_id\n' + t for t in parts]
+            else:
+                parts = parts + [parts[0]]
+            cases.append(('file', '\n\n'.join(parts) + '\n'))
     cases.append(('file', ''))
     cases.append(('missing-file', None))
     cases.append(('-p', ''))
